@@ -193,14 +193,21 @@ static void genGeometry(Rng& r, int ndim, Comp& c, bool forceIso = false)
   if (ndim > 1 && !r.coin(0.2))
     for (int k = 1; k < ndim; k++) c.ranges[k] = a * r.loguni(0.2, 5.);
   c.angles.clear();
+  // GeometryHelper::rotationGetSinCos special-cases the EXACT angles 0, 90, 180 and 270 (table of exact sines and
+  // cosines); every other value (360, 450, negative right angles, generic) goes through cos/sin. The draws mix exact
+  // special values with generic angles so that each table entry meets generic companions in 3-D.
+  auto ang = [&](double lo, double hi) {
+    if (r.coin(0.35)) return r.pick(std::vector<double> {0., 90., 180., 270., 90., 180., 270., 360., 450., -90., -180., -270.});
+    return r.uni(lo, hi);
+  };
   if (ndim == 1)
   {
     if (r.coin(0.2)) c.angles = {r.uni(-180, 180)}; // a 1-D "rotation" is the identity (rotationMatrixInPlace)
   }
   else if (!r.coin(0.2))
   {
-    if (ndim == 2) c.angles = {r.uni(-180, 180), 0.};
-    else c.angles = {r.uni(-180, 180), r.uni(-90, 90), r.uni(-180, 180)};
+    if (ndim == 2) c.angles = {ang(-180, 180), 0.};
+    else c.angles = {ang(-180, 180), ang(-90, 90), ang(-180, 180)};
   }
 }
 
@@ -751,10 +758,23 @@ static Verdict checkModel(Rng& r, Ctx& c, Model* model, RefModel& rm, const Pts&
   }
   c.truth("shape", K("shape", "C03:matrix-shape:" + kStruct), true);
 
+  // second point set (targets): Y[0] coincides with a data point
+  const int m = 4;
+  Pts Y;
+  for (int t = 0; t < m; t++)
+  {
+    std::vector<double> y = X[r.irange(0, n - 1)];
+    if (t > 0)
+      for (auto& v : y) v += r.normal() * c0.ranges[0] * r.pick(std::vector<double> {0.01, 0.3, 2.});
+    Y.push_back(y);
+  }
+  std::unique_ptr<Db> db2 = mkDb(Y, ndim);
+  Mat Mc = libMatrix(model->evalCovMatrix(db.get(), db2.get()));
+
   // ---- finiteness -------------------------------------------------------------------------------------------
   bool finite = true;
   double firstBad = 0;
-  for (auto* M : {&Ms, &Mr, &Mv})
+  for (auto* M : {&Ms, &Mr, &Mv, &Mc})
     for (LD v : M->a)
       if (isTestVal((double)v)) { if (finite) firstBad = (double)v; finite = false; }
   if (report || finite)
@@ -819,8 +839,9 @@ static Verdict checkModel(Rng& r, Ctx& c, Model* model, RefModel& rm, const Pts&
   }
 
   // ---- pointwise: Model::eval, sum of CovAniso::eval, evalIvarIpas agree with the matrix builders -------------------
-  std::vector<SpacePoint> sp;
+  std::vector<SpacePoint> sp, sq;
   for (int i = 0; i < n; i++) sp.emplace_back(VectorDouble(X[i]));
+  for (int t = 0; t < m; t++) sq.emplace_back(VectorDouble(Y[t]));
   {
     LD e1 = 0, e2 = 0, e3 = 0, e4 = 0;
     int npairs = n <= 24 ? n * n : 400;
@@ -851,24 +872,11 @@ static Verdict checkModel(Rng& r, Ctx& c, Model* model, RefModel& rm, const Pts&
 
   // ---- other entry points of the matrix builders: two different Dbs, one (ivar, jvar) block, unitary mode -----------
   {
-    int m = 4;
-    Pts Y;
-    for (int t = 0; t < m; t++)
-    {
-      std::vector<double> y = X[r.irange(0, n - 1)];
-      if (t > 0)
-        for (auto& v : y) v += r.normal() * c0.ranges[0] * r.pick(std::vector<double> {0.01, 0.3, 2.});
-      Y.push_back(y); // Y[0] coincides with a data point
-    }
-    std::unique_ptr<Db> db2 = mkDb(Y, ndim);
-    Mat Mc = libMatrix(model->evalCovMatrix(db.get(), db2.get()));
     bool shapeOk = Mc.nr == N && Mc.nc == nvar * m;
     c.truth("shape", K("shape", "C03:matrix-shape:" + kStruct), shapeOk, detail0 + fmt(": evalCovMatrix(db1,db2) is %dx%d, expected %dx%d", Mc.nr, Mc.nc, N, nvar * m));
     if (shapeOk)
     {
       LD e = 0, big = 0;
-      std::vector<SpacePoint> sq;
-      for (int t = 0; t < m; t++) sq.emplace_back(VectorDouble(Y[t]));
       for (int a = 0; a < nvar; a++)
         for (int b = 0; b < nvar; b++)
           for (int i = 0; i < n; i++)
@@ -890,6 +898,105 @@ static Verdict checkModel(Rng& r, Ctx& c, Model* model, RefModel& rm, const Pts&
         for (int j = 0; j < n; j++) e = std::max(e, std::fabs(Mb(i, j) - Mr(a * n + i, b * n + j)));
     c.check("block", kPoint, sb && e <= 1e-13 * scale, sb ? (double)e : INFINITY, (double)(1e-13 * scale),
             detail0 + fmt(": evalCovMatrix(ivar0=%d, jvar0=%d) is not the corresponding block of the full matrix", a, b));
+    // ---- the "optimised" matrix builders are entry points of the same covariance matrix: full matrix, two Dbs, and a
+    //      single requested variable (ivar0 / jvar0) of a multivariate model.
+    // They compute the distance between points that were first mapped to the normalised space (x -> T^-1 x), so their
+    // distance carries an absolute error of a few eps * |x| / scale instead of a relative one. An entry is accepted if
+    // it agrees to 1e-10 * magnitude OR to four times the largest change of the library's own covariance when the
+    // second point is moved by 64 * eps * sqrt(ndim) * max|coordinate| along each coordinate axis.
+    {
+      double xmax = 0;
+      for (auto& x : X)
+        for (double v : x) xmax = std::max(xmax, std::fabs(v));
+      for (auto& x : Y)
+        for (double v : x) xmax = std::max(xmax, std::fabs(v));
+      const double delta = 64 * EPS * std::sqrt((double)ndim) * xmax;
+      LD naive = 1e-10 * std::max(std::max(scale, Mv.maxabs()), Mc.maxabs());
+      int nslow = 0;
+      // A: optim matrix, B: plain matrix; rows = (vars ra..) x X, cols = (vars cb..) x colPts
+      auto agree = [&](const Mat& A, const Mat& B, const std::vector<int>& rv, const std::vector<int>& cv, const Pts& CX,
+                       const std::vector<SpacePoint>& cp, const CovCalcMode* mode, LD& worst) {
+        int nc = (int)CX.size();
+        if (A.nr != (int)rv.size() * n || A.nc != (int)cv.size() * nc || B.nr != A.nr || B.nc != A.nc) { worst = INFINITY; return false; }
+        bool ok = true;
+        for (size_t ia = 0; ia < rv.size(); ia++)
+          for (size_t ib = 0; ib < cv.size(); ib++)
+            for (int i = 0; i < n; i++)
+              for (int j = 0; j < nc; j++)
+              {
+                LD e = std::fabs(A((int)ia * n + i, (int)ib * nc + j) - B((int)ia * n + i, (int)ib * nc + j));
+                if (!(e <= naive))
+                {
+                  LD allowed = 0;
+                  if (std::isfinite((double)e) && nslow < 400)
+                  {
+                    nslow++;
+                    LD c0v = model->eval(sp[i], cp[j], rv[ia], cv[ib], mode);
+                    for (int q = 0; q < ndim; q++)
+                      for (int sgn = -1; sgn <= 1; sgn += 2)
+                      {
+                        VectorDouble y(CX[j]);
+                        y[q] += sgn * delta;
+                        SpacePoint py(y);
+                        allowed = std::max(allowed, std::fabs((LD)model->eval(sp[i], py, rv[ia], cv[ib], mode) - c0v));
+                      }
+                    allowed *= 4;
+                  }
+                  if (!(e <= allowed)) { ok = false; worst = std::max(worst, e); }
+                }
+                else
+                  worst = std::max(worst, e);
+              }
+        return ok;
+      };
+      std::vector<int> allv(nvar);
+      for (int a = 0; a < nvar; a++) allv[a] = a;
+      Mat So = libMatrix(model->evalCovMatrixSymmetricOptim(db.get()));
+      Mat Ro = libMatrix(model->evalCovMatrixOptim(db.get(), nullptr));
+      Mat Co = libMatrix(model->evalCovMatrixOptim(db.get(), db2.get()));
+      Mat Vo = libMatrix(model->evalCovMatrixOptim(db.get(), nullptr, -1, -1, VectorInt(), VectorInt(), &mvario));
+      LD w1 = 0, w2 = 0, w3 = 0, w4 = 0;
+      bool o1 = agree(So, Ms, allv, allv, X, sp, nullptr, w1);
+      bool o2 = agree(Ro, Mr, allv, allv, X, sp, nullptr, w2);
+      bool o3 = agree(Co, Mc, allv, allv, Y, sq, nullptr, w3);
+      bool o4 = agree(Vo, Mv, allv, allv, X, sp, &mvario, w4);
+      c.check("optim-sym", kPoint, o1, (double)w1, (double)naive, detail0 + ": evalCovMatrixSymmetricOptim differs from evalCovMatrixSymmetric");
+      c.check("optim-rect", kPoint, o2 && o3 && o4, (double)std::max(w2, std::max(w3, w4)), (double)naive,
+              detail0 + fmt(": evalCovMatrixOptim differs from evalCovMatrix (same Db %Lg, two Dbs %Lg, variogram mode %Lg)", w2, w3, w4));
+      if (Ro.nr == N && Ro.nc == N)
+      {
+        LD e5 = 0;
+        for (int i = 0; i < N; i++)
+          for (int j = 0; j < N; j++) e5 = std::max(e5, std::fabs(Ro(i, j) - Ro(j, i)));
+        c.check("optim-symmetric", kSym, e5 <= 1e-13 * scale, (double)e5, (double)(1e-13 * scale), detail0 + ": evalCovMatrixOptim(db,db) is not symmetric");
+      }
+      // one requested variable: the (a,a) block of the symmetric builders, the (a,b) block of the rectangular one
+      for (int rep = 0; rep < (nvar > 1 ? 2 : 1); rep++)
+      {
+        int a2 = nvar > 1 ? (rep == 0 ? nvar - 1 : r.irange(0, nvar - 1)) : 0, b2 = r.irange(0, nvar - 1);
+        Mat Sa  = libMatrix(model->evalCovMatrixSymmetricOptim(db.get(), a2));
+        Mat Sp  = libMatrix(model->evalCovMatrixSymmetric(db.get(), a2));
+        Mat Rab = libMatrix(model->evalCovMatrixOptim(db.get(), nullptr, a2, b2));
+        Mat Baa(n, n), Bab(n, n);
+        for (int i = 0; i < n; i++)
+          for (int j = 0; j < n; j++)
+          {
+            Baa(i, j) = Mr(a2 * n + i, a2 * n + j);
+            Bab(i, j) = Mr(a2 * n + i, b2 * n + j);
+          }
+        LD f1 = 0, f3 = 0, f2 = 0;
+        bool p1 = agree(Sa, Baa, {a2}, {a2}, X, sp, nullptr, f1);
+        bool p3 = agree(Rab, Bab, {a2}, {b2}, X, sp, nullptr, f3);
+        c.check("optim-block", kPoint, p1 && p3, (double)std::max(f1, f3), (double)naive,
+                detail0 + fmt(": Optim builders with ivar0=%d (jvar0=%d) are not the corresponding block of the full matrix (symmetric %Lg, rectangular %Lg)", a2, b2, f1, f3));
+        bool s2 = Sp.nr == n && Sp.nc == n;
+        if (s2)
+          for (int i = 0; i < n; i++)
+            for (int j = 0; j < n; j++) f2 = std::max(f2, std::fabs(Sp(i, j) - Baa(i, j)));
+        c.check("block", kPoint, s2 && f2 <= 1e-13 * scale, s2 ? (double)f2 : INFINITY, (double)(1e-13 * scale),
+                detail0 + fmt(": evalCovMatrixSymmetric(ivar0=%d) is not the (ivar0,ivar0) block of the full matrix", a2));
+      }
+    }
     if (single && nvar == 1 && c0.sill[0] > 0)
     {
       // CovCalcMode unitary: "True to calculate covariance without sill"
@@ -906,6 +1013,17 @@ static Verdict checkModel(Rng& r, Ctx& c, Model* model, RefModel& rm, const Pts&
 
   // ---- positive definiteness -------------------------------------------------------------------------------------
   PdOut po = structuralPd(Ms, Mv, X, ndim, nvar, order, cfg.NEIG);
+  if (order < 0 && po.evaluated && po.ok)
+  {
+    // the matrix of ONE variable over the points, as returned by the optimised builder, is itself a covariance matrix
+    int a2 = nvar - 1;
+    Mat Sa = libMatrix(model->evalCovMatrixSymmetricOptim(db.get(), a2));
+    bool s2 = Sa.nr == n && Sa.nc == n;
+    EigRes er;
+    if (s2) er = psdCheck(Sa, 0, cfg.NEIG);
+    c.check("optim-pd", kPoint, s2 && er.ok, s2 ? (double)std::max((LD)0, -er.lmin) : INFINITY, (double)er.tol,
+            detail0 + fmt(": evalCovMatrixSymmetricOptim(ivar0=%d) has smallest eigenvalue %.6Lg although the full matrix is positive semi-definite", a2, er.lmin));
+  }
   if (!po.evaluated) c.skip("cpd:no-increment");
   else if (order < 0)
   {
